@@ -211,24 +211,56 @@ def r3_registration(ctx):
 
 
 def r4_constant(ctx):
+    """the repetition draw fires at the third occurrence: decided by evaluating the count conditions of every return path of
+    game_ending for counts 0..8 (half-move clock held at 0), whatever the comparison is spelled like"""
     rule = 'C17.R4-draw-at-three'
     facts = ctx.facts
     from .c16 import game_ending_table
+    from sa.evalterm import ev, Unevaluable
     name, outs = game_ending_table(ctx)
-    vals = set()
+    count_terms, clock_terms = set(), set()
     for o in outs:
-        if o.kind != 'return' or o.value[0] != 'agg' or o.value[3] != 'Some':
-            continue
-        if dict(o.value[4])['0'][3] != 'Draw':
-            continue
         for a, v in o.conds:
-            if a[0] == 'call' and a[1] == BOARD + '::max_seen_position_count' and isinstance(v, int):
-                vals.add(('==', v))
-            elif any(s[0] == 'call' and s[1] == BOARD + '::max_seen_position_count' for s in subterms(a)) and a[0] == 'bin' and is_true(v):
-                vals.add((a[1], a[3][1] if is_const(a[3]) else show(a[3])))
-    ok = vals in ({('==', 3)}, {('Ge', 3)}, {('Gt', 2)})
-    ctx.ob(rule, name, 'repetition draw at count %s' % sorted(vals), ok, found=sorted(vals), expected=[('==', 3)],
-           why='the draw is claimed at the third occurrence')
+            for s_ in subterms(a):
+                if s_[0] == 'call' and s_[1] == BOARD + '::max_seen_position_count':
+                    count_terms.add(s_)
+                if s_[0] == 'call' and s_[1] == BOARD + '::halfmove_clock':
+                    clock_terms.add(s_)
+
+    def verdict(o):
+        v = o.value
+        if o.kind != 'return' or v is None or v[0] != 'agg':
+            return None
+        if v[3] == 'None':
+            return 'None'
+        inner = dict(v[4]).get('0')
+        return inner[3] if inner is not None and inner[0] == 'agg' else None
+
+    def holds(o, n):
+        env = {t: n for t in count_terms}
+        env.update({t: 0 for t in clock_terms})
+        for a, v in o.conds:
+            if not any(s_ in clock_terms or s_ in count_terms for s_ in subterms(a)):
+                continue
+            try:
+                x = ev(a, env)
+            except Unevaluable:
+                return None
+            if isinstance(v, tuple) and v[0] == 'not':
+                if x in v[1]:
+                    return False
+            elif x != int(v):
+                return False
+        return True
+    table = {}
+    for n_ in range(0, 9):
+        live = {verdict(o) for o in outs if verdict(o) in ('Draw', 'None') and holds(o, n_)}
+        table[n_] = sorted(live)
+    # counts above three cannot arise if play stops at the draw: `== 3` and `>= 3` are both accepted there
+    ok = bool(count_terms) and all(table[n_] == ['None'] for n_ in (0, 1, 2)) and table[3] == ['Draw'] and \
+        (all(table[n_] == ['Draw'] for n_ in range(4, 9)) or all(table[n_] == ['None'] for n_ in range(4, 9)))
+    ctx.ob(rule, name, 'repetition draw at the third occurrence', ok, found={str(k): v for k, v in table.items()}, expected='None for counts 0-2, Draw at 3',
+           why='the draw is claimed at the third occurrence, not earlier and not later')
 
 
 def run(ctx):
